@@ -27,6 +27,30 @@ var totalFuncs = []struct{ name, rel, fn string }{
 	{"gdef.Read", "opentype/gdef/gdef.go", "Read"},
 	{"maxp.Read", "maxp/maxp.go", "Read"},
 	{"header.Read", "header/tables.go", "Read"},
+	{"cmap.Decode", "cmap/cmap.go", "Decode"},
+	{"cmap.Table.Get", "cmap/cmap.go", "Table.Get"},
+	{"cmap.decodeFormat0", "cmap/format0.go", "decodeFormat0"},
+	{"cmap.Format0.Lookup", "cmap/format0.go", "Format0.Lookup"},
+	{"cmap.decodeFormat4", "cmap/format4.go", "decodeFormat4"},
+	{"cmap.decodeFormat6", "cmap/format6.go", "decodeFormat6"},
+	{"cmap.decodeFormat12", "cmap/format12.go", "decodeFormat12"},
+	{"glyf.decodeLoca", "glyf/loca.go", "decodeLoca"},
+	{"glyf.Decode", "glyf/glyf.go", "Decode"},
+	{"glyf.decodeGlyph", "glyf/composite.go", "decodeGlyph"},
+	{"glyf.decodeGlyphComposite", "glyf/composite.go", "decodeGlyphComposite"},
+	{"glyf.SimpleGlyph.removePadding", "glyf/simple.go", "SimpleGlyph.removePadding"},
+	{"glyf.SimpleGlyph.Decode", "glyf/simple.go", "SimpleGlyph.Decode"},
+	{"glyf.Glyph.Components", "glyf/composite.go", "Glyph.Components"},
+	{"hmtx.Decode", "hmtx/hmtx.go", "Decode"},
+	{"head.Read", "head/head.go", "Read"},
+	{"os2.Read", "os2/os2.go", "Read"},
+	{"post.Read", "post/post.go", "Read"},
+	{"coverage.Read", "opentype/coverage/coverage.go", "Read"},
+	{"coverage.ReadSet", "opentype/coverage/set.go", "ReadSet"},
+	{"classdef.Read", "opentype/classdef/classdef.go", "Read"},
+	{"name.Decode", "name/name.go", "Decode"},
+	{"name.utf16Decode", "name/name.go", "utf16Decode"},
+	{"cff.readIndex", "cff/index.go", "readIndex"},
 }
 
 type tieSite struct {
